@@ -1,5 +1,6 @@
 """Canonical, type-strict observations (true != 1, 1 != 1.0) and digests."""
 import hashlib
+import threading
 import json
 
 
@@ -61,20 +62,39 @@ def _field(v):
             text = json.dumps(v, sort_keys=True, separators=(",", ":"))
             if len(text) > 1500:
                 return ["big", hashlib.sha256(text.encode()).hexdigest()[:16], len(text)]
+            return ["j", text]      # the C encoder's text is type-strict (true / 1 / 1.0 stay distinct)
         except (TypeError, ValueError):
             pass
     return typed(v)
 
 
-def canon_error(e, with_context=True):
-    """Canonical rendering of a jsonschema ValidationError (public attributes only)."""
+BIG_CONTEXT = 40
+
+
+def _canon(e, with_context):
+    """(canonical node, its digest, number of errors in its subtree) - one serialisation per node.
+
+    Children are ordered by digest; a subtree of more than BIG_CONTEXT errors is represented in its parent by
+    a count and a digest of the ordered child digests (exponential oneOf/anyOf trees have thousands of nodes,
+    each carrying its subschema and instance: re-serialising whole subtrees at every level took minutes).
+    """
     cause = getattr(e, "cause", None)
-    ctx = []
+    kids = []
+    n = 1
     if with_context:
-        ctx = sorted((canon_error(c) for c in (getattr(e, "context", None) or [])), key=jdump)
-    return {
-        "message": getattr(e, "message", None) if len(getattr(e, "message", None) or "") < 4000
-        else "<long message %s>" % hashlib.sha256((getattr(e, "message") or "").encode("utf-8", "replace")).hexdigest()[:16],
+        for c in (getattr(e, "context", None) or []):
+            node, key, cnt = _canon(c, True)
+            kids.append((key, node))
+            n += cnt
+        kids.sort(key=lambda kn: kn[0])
+    if n > BIG_CONTEXT:
+        ctx = ["big-context", n, hashlib.sha256(",".join(k for k, _ in kids).encode()).hexdigest()[:16]]
+    else:
+        ctx = [node for _, node in kids]
+    msg = getattr(e, "message", None)
+    node = {
+        "message": msg if len(msg or "") < 4000
+        else "<long message %s>" % hashlib.sha256((msg or "").encode("utf-8", "replace")).hexdigest()[:16],
         "validator": _field(getattr(e, "validator", None)),
         "validator_value": _field(getattr(e, "validator_value", None)),
         "path": typed(list(getattr(e, "path", ()))),
@@ -83,6 +103,27 @@ def canon_error(e, with_context=True):
         "cause": None if cause is None else [type(cause).__name__, str(cause)[:200]],
         "context": ctx,
     }
+    return node, hashlib.sha256(jdump(node).encode()).hexdigest()[:24], n
+
+
+_tl = threading.local()
+
+
+def nodes():
+    """Number of errors (context included) canonised so far by this thread: a deterministic measure of how
+    heavy a scenario is (exponential oneOf/anyOf trees), used to cut such scenarios short."""
+    return getattr(_tl, "n", 0)
+
+
+def set_nodes(v):
+    _tl.n = v
+
+
+def canon_error(e, with_context=True):
+    """Canonical rendering of a jsonschema ValidationError (public attributes only)."""
+    node, _, n = _canon(e, with_context)
+    _tl.n = getattr(_tl, "n", 0) + n
+    return node
 
 
 def multiset(errs):
